@@ -145,6 +145,65 @@ def ersVerify (o : GrpOps P) (H : Bytes → Bytes) (n fcBytes : Nat) (g pp : P) 
   o.beq (ring.foldl (fun t e => o.add t e.h) (o.smul td.toNat g)) pp &&
   ring.all fun e => sokorVerify o H n fcBytes g g e.h e.pk msg e.c0 e.c1 e.r0 e.r1
 
+
+/-- same-message linkable variant: additionally τᵢ with a proof of knowledge of log hᵢ (base G) or log τᵢ (base H(m)) -/
+structure LinkElt (P : Type) where
+  e : RingElt P
+  tau : P
+  d0 : Int
+  d1 : Int
+  t0 : Int
+  t1 : Int
+
+def smlersVerify (o : GrpOps P) (H : Bytes → Bytes) (n fcBytes : Nat) (g hm pp : P) (td : Int) (ring : List (LinkElt P)) (msg : Bytes) : Bool :=
+  ersVerify o H n fcBytes g pp td (ring.map (·.e)) msg && o.pub hm &&
+  ring.all fun l => sokorVerify o H n fcBytes g hm l.e.h l.tau msg l.d0 l.d1 l.t0 l.t1
+
+/-! ## extendable threshold ring signatures
+
+The N = max + size points (yᵢ, tdᵢ·G) and (sⱼ.y, sⱼ.h), together with (0, pp), lie "in the exponent" on one polynomial of
+degree N − thres: the first d = N − thres of them and (0, pp) determine it, the remaining `thres` must lie on it
+(`etrsOnPoly`); the threshold is exact: the first d points alone do not already interpolate pp at 0 (`etrsExact`, the test
+the library performs); every element carries a proof of knowledge of log h or log pk. -/
+
+structure TrsElt (P : Type) where
+  y : Int
+  e : RingElt P
+
+/-- Lagrange coefficient at `x` of node `i` among `nodes` (all arithmetic modulo the prime n) -/
+def lagrangeAt (n : Nat) (nodes : List Nat) (i : Nat) (x : Nat) : Nat :=
+  let xi := nodes.getD i 0
+  (List.range nodes.length).foldl (fun acc j =>
+    if j = i then acc else
+    let xj := nodes.getD j 0
+    acc * ((x + n - xj % n) % n) % n * invMod n ((xi + n - xj % n) % n) % n) 1
+
+/-- Σ Lᵢ(x)·Tᵢ -/
+def interpolate (o : GrpOps P) (n : Nat) (zero : P) (pts : List (Nat × P)) (x : Nat) : P :=
+  let nodes := pts.map (·.1)
+  (List.range pts.length).foldl (fun acc i =>
+    match pts[i]? with
+    | some (_, t) => o.add acc (o.smul (lagrangeAt n nodes i x) t)
+    | none => acc) zero
+
+def distinct (l : List Nat) : Bool :=
+  (List.range l.length).all fun i => (List.range l.length).all fun j => i == j || l.getD i 0 != l.getD j 0
+
+def etrsVerify (o : GrpOps P) (H : Bytes → Bytes) (n fcBytes : Nat) (g pp : P) (thres : Nat) (tds ys : List Int)
+    (ring : List (TrsElt P)) (msg : Bytes) : Bool :=
+  let zero := o.smul 0 g
+  tds.length == ys.length && decide (thres ≤ ring.length) &&
+  tds.all (inRange n) && ys.all (inRangePos n) && ring.all (fun e => inRangePos n e.y) && o.pub pp &&
+  (let pts : List (Nat × P) := (List.zip ys tds).map (fun (y, td) => (y.toNat, o.smul td.toNat g)) ++ ring.map (fun e => (e.y.toNat, e.e.h))
+   let d := pts.length - thres
+   let base := pts.take d
+   distinct (0 :: pts.map (·.1)) &&
+   -- consistency: the remaining points lie on the polynomial through (0, pp) and the first d points
+   (pts.drop d).all (fun (x, t) => o.beq (interpolate o n zero ((0, pp) :: base) x) t) &&
+   -- exact threshold: the first d points alone do not give pp
+   !o.beq (interpolate o n zero base 0) pp) &&
+  ring.all fun e => sokorVerify o H n fcBytes g g e.e.h e.e.pk msg e.e.c0 e.e.c1 e.e.r0 e.e.r1
+
 /-! ## RSA (RFC 8017) -/
 
 structure RsaPub where
